@@ -12,6 +12,9 @@ var familyWeights = map[string]int{"typedecl": 2, "generic": 6, "chain": 5, "stm
 // Generate draws a package.
 func Generate(t *rapid.T, name string, cfg Config) *Package {
 	g := &gen{t: t, cfg: cfg, excl: map[string]int{}, printfHelpers: -1, exoHelpers: -1}
+	g.pkgSeed = rapid.Uint64().Draw(t, "package_seed")
+	g.rng = g.pkgSeed
+	g.next()
 	if cfg.MaxUnits == 0 {
 		cfg.MinUnits, cfg.MaxUnits = 6, 24
 	}
@@ -25,19 +28,21 @@ func Generate(t *rapid.T, name string, cfg Config) *Package {
 			wheel = append(wheel, f)
 		}
 	}
-	g.heavy = rapid.IntRange(0, 3).Draw(t, "heavy") == 0
-	n := rapid.IntRange(cfg.MinUnits, cfg.MaxUnits).Draw(t, "nunits")
+	g.heavy = g.intn(0, 7, "heavy") == 0
+	n := g.intn(cfg.MinUnits, cfg.MaxUnits, "nunits")
 	for i := 0; i < n; i++ {
-		g.family(wheel[rapid.IntRange(0, len(wheel)-1).Draw(t, "family")])
+		g.reseed()
+		g.family(pick(g, "family", wheel...))
 	}
 	if cfg.Test {
 		g.testMode = true
-		nt := rapid.IntRange(1, 6).Draw(t, "ntestunits")
+		nt := g.intn(1, 6, "ntestunits")
 		for i := 0; i < nt; i++ {
-			if rapid.Bool().Draw(t, "testspecific") {
+			g.reseed()
+			if g.flip("testspecific") {
 				g.testDecl()
 			} else {
-				g.family(wheel[rapid.IntRange(0, len(wheel)-1).Draw(t, "family")])
+				g.family(pick(g, "family", wheel...))
 			}
 		}
 		g.testMode = false
